@@ -11,7 +11,7 @@ import (
 func init() {
 	register(&property{
 		ID:          "C16",
-		Explanation: "Static decision of how the SOCKS5 handler configures the library, by path evaluation of Provision over command lists of 0..2 entries (each resolving to CONNECT, ASSOCIATE, BIND, the empty string or something unknown) and credential maps of 0 or 2 entries: (R1) the PermitCommand rule starts all-false, no commands configured enables exactly CONNECT and ASSOCIATE, otherwise exactly the configured commands are enabled and any other resolved value (including empty) fails provisioning; (R2) NoAuth is offered iff no credentials are configured, otherwise only user/password authentication backed by the resolved credential map; (R3) the server is built with both the rule and the authentication methods; (R4) package l4socks itself opens no connection or listener and Handle only delegates to the library's ServeConn on the layer4 connection.",
+		Explanation: "Static decision of how the SOCKS5 handler configures the library, by path evaluation of Provision over command lists of 0..2 entries (each resolving to CONNECT, ASSOCIATE, BIND, the empty string or something unknown) and credential maps of 0 or 2 entries: (R1) the PermitCommand rule starts all-false, no commands configured enables exactly CONNECT and ASSOCIATE, otherwise exactly the configured commands are enabled and any other resolved value (including empty) fails provisioning; (R2) NoAuth is offered iff no credentials are configured, otherwise only user/password authentication backed by the resolved credential map; (R3) the server is built with both the rule and the authentication methods; (R4) package l4socks itself opens no connection or listener and Handle only delegates to the library's ServeConn on the layer4 connection. Added: (R5) every key of the credential map is the placeholder-resolved user name, stored only under a test that the resolved name is not empty.",
 		NotDecided:  "The library's enforcement of the rule and of authentication, its refusal replies and its dialing (things-go/go-socks5 is trusted).",
 		Run:         runC16,
 	})
